@@ -614,7 +614,8 @@ class CollapseAmbiguities(Transformer):
 
     """
     def _ambig(self, options):
-        return sum(options, [])
+        # An alternative that is neither a tree nor a token (e.g. a None placeholder) is kept as it is
+        return sum([o if isinstance(o, list) else [o] for o in options], [])
 
     def __default__(self, data, children_lists, meta):
         # Children that are neither trees nor tokens (e.g. None placeholders) are kept as they are
